@@ -302,7 +302,8 @@ static double data_array_median(const unsigned n, const double v[n])
 
     double r;
     if (n % 2u == 0u) {
-        r =  (double)(v[n/2u - 1u] + v[n / 2u]) / 2.0;
+        /* Halve before adding, the sum of two large samples may not be representable */
+        r = 0.5 * v[n/2u - 1u] + 0.5 * v[n / 2u];
     }
     else {
         r = (double)(v[n / 2u]);
